@@ -748,6 +748,8 @@ type c05Image struct {
 	headMark uint64   // height of the head marker on disk
 	nest     int      // > 0: also enumerate a second crash during the recovery from this image
 	second   bool     // image of a second crash (nested enumeration)
+	afterTorn bool    // second crash of the family "torn tail -> run on -> second crash"
+	tornNest bool     // first-crash torn image from which that family is enumerated
 }
 
 func (img *c05Image) mkdb(rc *c05Rec) *c05DB {
@@ -828,6 +830,7 @@ type c05Result struct {
 	replayErr string
 	stateBlk  string  // block id in the loaded consensus state
 	after     uint64  // block store height after the WAL catch-up
+	repairedAt int    // > 0: OnStart repaired the WAL; events [0,repairedAt) precede the repair
 	rc        *c05Rec // the recovery's own durable events
 	node      *c05Node
 	walPath   string
@@ -926,11 +929,18 @@ func c05Recover(t *testing.T, sc *c05Scenario, img *c05Image, refeed bool) *c05R
 				res.startErr = "WAL repair failed: " + err.Error()
 				return
 			}
-			rc.off = true // the repaired file starts a new offset space; not enumerated further
+			// the repaired head starts a new offset space: offsets recorded from here on are
+			// positions in (rotated files ++ repaired head); crash points before this moment
+			// (a crash inside the repair itself) are not enumerated
+			rc.off = true
 			if err := n.openWAL(); err != nil {
 				res.startErr = "reopen WAL: " + err.Error()
 				return
 			}
+			rc.off = false
+			rc.wEnd = n.wal.logicalEnd()
+			rc.wSynced = rc.wEnd
+			res.repairedAt = len(rc.evs)
 			res.verdict = "repaired-"
 		}
 		if repairAttempted && !strings.HasPrefix(res.verdict, "repaired-") {
@@ -1027,6 +1037,32 @@ func c05Check(t *testing.T, o *vfOut, vs *c05Viols, ref *c05Ref, img *c05Image, 
 	if sc.flush && res.head+1 < img.top {
 		vs.add("c05/flush-mode-lost-committed-blocks"+cause+":"+class, desc())
 	}
+	// the catch-up restores what the node had published for the height it resumes: every own vote
+	// handed to handleMsg before the crash is in the vote set again (checked when the replay was
+	// accepted and the stores are consistent; otherwise the root cause above is the finding)
+	if cause == "" && strings.HasSuffix(res.verdict, "ok") {
+		addr := n.pv.GetAddress()
+		for _, p := range img.pub {
+			if p.proposal || p.h != n.cs.Height {
+				continue
+			}
+			set := n.cs.Votes.Prevotes(p.r)
+			if p.typ == kproto.PrecommitType {
+				set = n.cs.Votes.Precommits(p.r)
+			}
+			var got *types.Vote
+			if set != nil {
+				got = set.GetByAddress(addr)
+			}
+			if got == nil || vfBlockKey(got.BlockID) != p.blockKey {
+				have := "none"
+				if got != nil {
+					have = vfBlockKey(got.BlockID)
+				}
+				vs.add("c05/published-vote-not-restored:"+class, fmt.Sprintf("%s height=%d round=%d type=%v published=%.12s in-vote-set-after-catch-up=%.12s", desc(), p.h, p.r, p.typ, p.blockKey, have))
+			}
+		}
+	}
 	// drive on: two more heights than had been committed
 	target := img.top + 2
 	if target > ref.top {
@@ -1057,7 +1093,8 @@ func c05Check(t *testing.T, o *vfOut, vs *c05Viols, ref *c05Ref, img *c05Image, 
 				// machine; unresolved, see notes/C05.md) - votes and stores are checked
 				// rotation family: F7 (second proposal under the pool-lost policy) is a property of
 				// the policy, examined by the single-file family; the vote clause stays on
-				if !img.second && !img.rotated && (p.blockKey != sg.blockKey || p.polRound != sg.polRound) {
+				// torn-tail family: on under the same-inputs policy, off under pool-lost (F7)
+				if (!img.second || (img.afterTorn && refeed)) && !img.rotated && (p.blockKey != sg.blockKey || p.polRound != sg.polRound) {
 					vs.add("c05/second-proposal"+cause+":"+class, fmt.Sprintf("%s height=%d round=%d published=%.12s re-signed=%.12s", desc(), sg.h, sg.r, p.blockKey, sg.blockKey))
 				}
 			} else if p.typ == sg.typ && p.blockKey != sg.blockKey {
@@ -1072,7 +1109,7 @@ func c05Check(t *testing.T, o *vfOut, vs *c05Viols, ref *c05Ref, img *c05Image, 
 			if got != img.commit[h] {
 				vs.add("c05/committed-height-redecided"+cause+":"+class, fmt.Sprintf("%s height=%d committed=%.12s now=%.12s", desc(), h, img.commit[h], got))
 			}
-		} else if sc.flush && refeed && !img.second && got != ref.blocks[h] {
+		} else if sc.flush && refeed && (!img.second || img.afterTorn) && got != ref.blocks[h] {
 			vs.add("c05/twin-divergence"+cause+":"+class, fmt.Sprintf("%s height=%d twin=%.12s crashed-node=%.12s", desc(), h, ref.blocks[h], got))
 		}
 	}
@@ -1086,15 +1123,29 @@ func c05Check(t *testing.T, o *vfOut, vs *c05Viols, ref *c05Ref, img *c05Image, 
 	o.Stat("class." + class)
 	// second crash: only from recoveries that were themselves clean (damage of a known-bad first
 	// crash would only propagate)
-	if img.nest > 0 && vs.n == violsBefore && panicked == nil && !n.dead() && !res.rc.off && len(res.rc.evs) > 0 {
-		c05SecondCrash(t, o, vs, ref, img, res)
+	if img.nest > 0 && vs.n == violsBefore && panicked == nil && !n.dead() && !res.rc.off && res.repairedAt == 0 && len(res.rc.evs) > 0 {
+		c05SecondCrash(t, o, vs, ref, img, res, false)
+	}
+	// torn tail -> run on -> second crash: the first recovery must have been clean
+	if img.tornNest && refeed {
+		if vs.n == violsBefore && panicked == nil && !n.dead() && !res.rc.off && len(res.rc.evs) > res.repairedAt {
+			c05SecondCrash(t, o, vs, ref, img, res, true)
+		} else {
+			o.Stat("torn-second.first-recovery-not-clean")
+		}
 	}
 	return res
 }
 
-// c05SecondCrash: the node crashes again during (or after) its recovery - every prefix of the
-// recovery run's own durable-event log, WAL cut at the synced offset.
-func c05SecondCrash(t *testing.T, o *vfOut, vs *c05Viols, ref *c05Ref, img *c05Image, res *c05Result) {
+// c05SecondCrash: the node crashes again during (or after) its recovery - prefixes of the recovery
+// run's own durable-event log, WAL cut at the synced offset.
+//
+// afterTorn = the family "torn tail -> run on -> second crash": the first image had a torn last
+// record; only crash points after OnStart's repair are taken (quick: right after each of the
+// second life's first own proposal / part / prevote / precommit, its first #ENDHEIGHT-complete
+// commit, and two more; thorough: all), outside the tail of a commit (F14/F19 phases); the second
+// restart is checked under both transaction policies with class suffix +second-crash-after-torn.
+func c05SecondCrash(t *testing.T, o *vfOut, vs *c05Viols, ref *c05Ref, img *c05Image, res *c05Result, afterTorn bool) {
 	n := res.node
 	evs := res.rc.evs
 	blocks := map[uint64]string{}
@@ -1104,11 +1155,41 @@ func c05SecondCrash(t *testing.T, o *vfOut, vs *c05Viols, ref *c05Ref, img *c05I
 	n.stop()
 	wal := c05ReadWal(res.walPath)
 	limit := len(evs)
-	if limit > 60 {
+	if limit > 60 && !afterTorn {
 		limit = 60
 	}
-	for j := 1; j <= limit; j++ {
-		im2 := &c05Image{second: true, rot: img.rot, commit: map[uint64]string{}, top: img.top, done: img.done, headMark: img.headMark, fedH: evs[j-1].fedH}
+	from := 1
+	pick := map[int]bool{}
+	if afterTorn {
+		from = res.repairedAt + 1
+		// quick tier: a handful of second-crash points
+		seen := map[string]bool{}
+		extra := 0
+		for j := from; j <= limit; j++ {
+			m := c05Milestone(evs[j-1])
+			switch {
+			case m == "proposal" || m == "part" || m == "prevote" || m == "precommit" || m == "cstateBatch":
+				if !seen[m] {
+					seen[m] = true
+					pick[j] = true
+				}
+			case m == "" && !evs[j-1].db && extra < 2 && seen["prevote"]:
+				extra++ // a buffered record behind an own vote
+				pick[j] = true
+			}
+		}
+	}
+	for j := from; j <= limit; j++ {
+		if afterTorn {
+			if !vfThorough() && !pick[j] {
+				continue
+			}
+			if c05InCommitTail(evs, j) {
+				o.Stat("torn-second.skipped-commit-tail")
+				continue
+			}
+		}
+		im2 := &c05Image{second: true, afterTorn: afterTorn, rot: img.rot, commit: map[uint64]string{}, top: img.top, done: img.done, headMark: img.headMark, fedH: evs[j-1].fedH}
 		for h, b := range img.commit {
 			im2.commit[h] = b
 		}
@@ -1145,10 +1226,28 @@ func c05SecondCrash(t *testing.T, o *vfOut, vs *c05Viols, ref *c05Ref, img *c05I
 		im2.wal = append([]byte{}, wal[:wl]...)
 		im2.pub = append(append([]c05Pub{}, img.pub...), res.rc.pub[:evs[j-1].nPub]...)
 		im2.class = c05Class(evs, j, 0, ref.sc.flush)
-		im2.desc = fmt.Sprintf("SECOND crash at prefix=%d/%d(%s) of the recovery from [%s] wal=synced@%d", j, len(evs), im2.class, img.desc, wl)
+		if !afterTorn {
+			im2.desc = fmt.Sprintf("SECOND crash at prefix=%d/%d(%s) of the recovery from [%s] wal=synced@%d", j, len(evs), im2.class, img.desc, wl)
+			c05Check(t, o, vs, ref, im2, true, false)
+			o.Case("2nd/"+im2.desc, true)
+			o.Stat("second-crash")
+			continue
+		}
+		im2.class += "+second-crash-after-torn"
+		im2.desc = fmt.Sprintf("SECOND crash at prefix=%d/%d(%s) of the life that followed the recovery (verdict %s, repair at event %d) from [%s] wal=synced@%d of %d", j, len(evs), im2.class, res.verdict, res.repairedAt, img.desc, wl, len(wal))
 		c05Check(t, o, vs, ref, im2, true, false)
-		o.Case("2nd/"+im2.desc, true)
-		o.Stat("second-crash")
+		o.Case("torn2nd/"+im2.desc+"/same", true)
+		o.Stat("torn-second.images")
+		lost := false
+		for h := uint64(1); h <= im2.fedH; h++ {
+			if len(ref.sc.txs[h]) > 0 {
+				lost = true
+			}
+		}
+		if lost {
+			c05Check(t, o, vs, ref, im2, false, false)
+			o.Case("torn2nd/"+im2.desc+"/lost", true)
+		}
 	}
 }
 
@@ -1293,6 +1392,15 @@ func c05MkImage(ref *c05Ref, k int, walLen int64, variant string) *c05Image {
 		img.class += "+wal-" + variant
 	}
 	img.desc = fmt.Sprintf("prefix=%d/%d(%s) wal=%s@%d", k, len(evs), img.class, variant, walLen)
+	if variant == "torn" {
+		var boundary int64
+		for i := range evs {
+			if !evs[i].db && evs[i].wEnd <= walLen && evs[i].wEnd > boundary {
+				boundary = evs[i].wEnd
+			}
+		}
+		img.desc += fmt.Sprintf("(%d bytes of the next record)", walLen-boundary)
+	}
 	if img.rotated {
 		img.desc += fmt.Sprintf(" files-end-at=%v", img.rot)
 	}
@@ -1327,6 +1435,33 @@ func TestVerifC05(t *testing.T) {
 		if shard == 0 {
 			o.Op("recovery", fmt.Sprintf("order mode=%s heights=%d", c05Mode(flush), ref.top), c05Order(evs, ref.genEnd, len(evs)))
 		}
+		// roots of the family "torn tail -> run on -> second crash" (chosen over ALL prefixes, so
+		// that the choice does not depend on the shard): torn images outside the F14/F19 phases
+		// and outside F34; quick tier: per crash class the first one inside height 2 and the
+		// first one inside height 4 (the heights with transactions)
+		tornRoot := map[int]bool{}
+		if flush {
+			taken := map[string]bool{}
+			for k := ref.genEnd; k <= ref.lastEv; k++ {
+				if k == 0 || c05InCommitTail(evs, k) || c05CatchupCommits(evs, k) {
+					continue
+				}
+				if _, recLen := c05NextRecord(evs, k); recLen < 12 {
+					continue // no record to tear at this crash point
+				}
+				var done uint64
+				for i := 0; i < k; i++ {
+					if evs[i].db && evs[i].kind == "cstateBatch" && evs[i].h > done {
+						done = evs[i].h
+					}
+				}
+				key := fmt.Sprintf("%s@%d", c05Class(evs, k, ref.genEnd, flush), done+1)
+				if vfThorough() || ((done+1 == 2 || done+1 == 4) && !taken[key]) {
+					taken[key] = true
+					tornRoot[k] = true
+				}
+			}
+		}
 		for k := 0; k <= ref.lastEv; k++ {
 			if uint64(k)%shards != shard || (only >= 0 && k != only) {
 				continue
@@ -1352,6 +1487,9 @@ func TestVerifC05(t *testing.T) {
 				if vfThorough() && v.name == "synced" && k >= ref.genEnd {
 					img.nest = 1
 				}
+				// family "torn tail -> run on -> second crash" (flush mode): from torn images
+				// outside the F14/F19 phases and outside F34 (a torn tail whose catch-up commits)
+
 				c05Check(t, o, vs, ref, img, true, k >= ref.genEnd && v.name != "torn")
 				o.Case(fmt.Sprintf("%s/%v/%d/%s/same", sc.name, flush, k, v.name), k > 0)
 				// the pool-lost policy differs only if transactions submitted before the crash
@@ -1365,6 +1503,26 @@ func TestVerifC05(t *testing.T) {
 				if lost {
 					c05Check(t, o, vs, ref, img, false, false)
 					o.Case(fmt.Sprintf("%s/%v/%d/%s/lost", sc.name, flush, k, v.name), true)
+				}
+			}
+			// family "torn tail -> run on -> second crash": dedicated first-crash images. The
+			// record after the last durable byte is cut inside its length field (5 bytes) and
+			// inside its body (>= 8 bytes): both are reported corrupt by the decoder, OnStart
+			// repairs. Fragments of 1..3 bytes (inside the checksum field) are NOT detected by the
+			// code as found (see notes/C05.md, candidate finding): enumerated only with
+			// VERIF_C05_SHORT_TORN=1.
+			if tornRoot[k] {
+				start, recLen := c05NextRecord(evs, k)
+				frags := []int64{5, 8 + int64(r.Intn(int(recLen-9)))}
+				if vfEnvInt("VERIF_C05_SHORT_TORN", 0) > 0 {
+					frags = append(frags, 1, 2, 3)
+				}
+				for _, f := range frags {
+					img := c05MkImage(ref, k, start+f, "torn")
+					img.tornNest = true
+					c05Check(t, o, vs, ref, img, true, false)
+					o.Case(fmt.Sprintf("%s/%v/%d/torn-root/%d", sc.name, flush, k, f), true)
+					o.Stat(fmt.Sprintf("torn-second.roots.fragment-%d-bytes", map[bool]int64{true: f, false: 8}[f < 8]))
 				}
 			}
 		}
@@ -1452,6 +1610,24 @@ func TestVerifC05(t *testing.T) {
 		}
 	}
 	_ = crypto.Keccak256
+}
+
+// c05NextRecord: where the first WAL record that is not durable at crash point k starts (the
+// synced offset) and how long it is (0 = there is none: the next event is a database write).
+func c05NextRecord(evs []c05Ev, k int) (start, length int64) {
+	if k == 0 {
+		return 0, 0
+	}
+	start = evs[k-1].wSynced
+	for i := 0; i < len(evs); i++ {
+		if !evs[i].db && evs[i].kind != "walRotate" && evs[i].kind != "walFlush" && evs[i].wEnd > start {
+			if i >= k && evs[k-1].wEnd == start && i != k {
+				return start, 0 // the next event is not this WAL write
+			}
+			return start, evs[i].wEnd - start
+		}
+	}
+	return start, 0
 }
 
 // c05InCommitTail: prefix k ends after `#ENDHEIGHT h` and before the consensus state of h is saved.
